@@ -18,6 +18,7 @@ _cache, fs.write_safe / replace / rm_safe and zkutils.get_with_metadata / get.
 """
 
 import errno
+import json
 import os
 import shutil
 import tempfile as _real_tempfile
@@ -66,6 +67,30 @@ def merged(name, manifest, pdata):
             if key in pdata:
                 exp[key] = pdata[key]
     return exp
+
+
+def typed_equal(left, right):
+    """Equality value by value *with types*: 1, 1.0, True and '1' all differ,
+    floats compare by repr (so -0.0 / 1e-05 keep their identity)."""
+    if type(left) is not type(right):
+        return False
+    if isinstance(left, dict):
+        return left.keys() == right.keys() and \
+            all(typed_equal(left[key], right[key]) for key in left)
+    if isinstance(left, list):
+        return len(left) == len(right) and \
+            all(typed_equal(one, two) for one, two in zip(left, right))
+    if isinstance(left, float):
+        return repr(left) == repr(right)
+    return left == right
+
+
+def stored_json(tree, path):
+    """The harness' own reading of a node written by zkutils.put: JSON."""
+    raw = tree.nodes[path].data
+    if not raw:
+        return None
+    return json.loads(raw.decode())
 
 
 def dump_bytes(content):
@@ -122,11 +147,6 @@ class World(object):
         for inst in case['instances']:
             name = inst['name']
             self.insts[name] = inst
-            pdata = inst.get('pdata') if inst.get('pnode') else None
-            has_sources = bool(inst.get('pnode')) and \
-                inst.get('manifest') is not None
-            self.new[name] = merged(name, inst['manifest'], pdata) \
-                if has_sources else None
             if inst.get('placed'):
                 self.expected.append(name)
 
@@ -164,6 +184,16 @@ class World(object):
                 zkutils.put(self.zk, z.path.placement(self.host, name),
                             inst.get('pdata'))
 
+            # what the node must cache: the manifest *as stored in ZooKeeper*
+            # (read back by the harness with json.loads) + placement + task
+            self.new[name] = None
+            if inst.get('pnode') and inst.get('manifest') is not None:
+                self.new[name] = merged(
+                    name,
+                    stored_json(self.tree, z.path.scheduled(name)),
+                    stored_json(self.tree,
+                                z.path.placement(self.host, name)))
+
         for dot in case.get('dotfiles', []):
             assert dot['name'].startswith('.')
             with open(os.path.join(self.cache, dot['name']), 'w') as fh:
@@ -199,7 +229,7 @@ class World(object):
         if self._accepted.get(name) == data:
             return 'new'
         new = self.new.get(name)
-        if new is not None and parse(data) == new:
+        if new is not None and typed_equal(parse(data), new):
             self._accepted[name] = data
             return 'new'
         return None
@@ -449,7 +479,7 @@ def check_after_sync(world, stats):
             world.prior_stat[name] != now or data != world.prior[name]
         if written:
             stats.count('files_written')
-            if new is None or parse(data) != new:
+            if new is None or not typed_equal(parse(data), new):
                 raise Violation(
                     'c12.sync.written-content',
                     'file %r written by the synchronisation holds %r, '
@@ -461,7 +491,7 @@ def check_after_sync(world, stats):
                     new is not None and inst.get('rel') == 'after')
         if outdated:
             stats.count('outdated_seen')
-            if parse(data) != new:
+            if not typed_equal(parse(data), new):
                 raise Violation(
                     'c12.sync.outdated-not-refreshed',
                     'check_existing: %r is older than its placement node but '
